@@ -46,6 +46,10 @@ class BaseGotranODECodePrinter(StrPrinter):
     def _print_Not(self, expr):
         return f"Not({self._print(expr.args[0])})"
 
+    def _print_ceiling(self, expr):
+        # There is no 'ceiling' in the grammar
+        return f"(-floor(-({self._print(expr.args[0])})))"
+
     def _print_Exp1(self, expr):
         # There is no constant 'E' in the grammar
         return "exp(1)"
